@@ -311,23 +311,27 @@ class ModelApiHarness(Harness):
       res, exc = call(ex, w.docs[di].set_body, a)
       args = {"doc": di, "a": kind(a)}
     elif op == "set_style":
-      vi = ex.choice("v", 5)
+      vi = ex.choice("v", 8)
       prop, val = [(SP.Color, styles.NamedColors.red.value), (SP.Color, "red"), (SP.FontFamily, ("serif", 5)),
-                   (SP.FontFamily, (styles.GenericFontFamilyType.serif, "Arial")), (SP.FontSize, 12)][vi]
+                   (SP.FontFamily, (styles.GenericFontFamilyType.serif, "Arial")), (SP.FontSize, 12),
+                   (SP.FontFamily, (styles.GenericFontFamilyType.serif, 42)), (SP.FontFamily, ("Arial", styles.GenericFontFamilyType.default, None)),
+                   (SP.FontFamily, (7, "Arial"))][vi]
       res, exc = call(ex, a.set_style, prop, val)
       args = {"a": kind(a), "value": vi}
     elif op == "add_animation_step":
-      vi = ex.choice("v", 3)
+      vi = ex.choice("v", 5)
 
       def mk():
-        prop, val = [(SP.Color, styles.NamedColors.red.value), (SP.FontFamily, (1, 2)), (SP.Color, 7)][vi]
+        prop, val = [(SP.Color, styles.NamedColors.red.value), (SP.FontFamily, (1, 2)), (SP.Color, 7),
+                     (SP.FontFamily, (styles.GenericFontFamilyType.monospace, 3)), (SP.FontFamily, ("a", None))][vi]
         return a.add_animation_step(model.DiscreteAnimationStep(prop, Fraction(0), None, val))
       res, exc = call(ex, mk)
       args = {"a": kind(a), "value": vi}
     elif op == "put_initial_value":
       di = ex.choice("d", 2)
-      vi = ex.choice("v", 3)
-      prop, val = [(SP.Color, styles.NamedColors.red.value), (SP.FontFamily, ("x", None)), (SP.Display, "none")][vi]
+      vi = ex.choice("v", 4)
+      prop, val = [(SP.Color, styles.NamedColors.red.value), (SP.FontFamily, ("x", None)), (SP.Display, "none"),
+                   (SP.FontFamily, (styles.GenericFontFamilyType.default, None))][vi]
       res, exc = call(ex, w.docs[di].put_initial_value, prop, val)
       args = {"doc": di, "value": vi}
     elif op == "copy_to":
